@@ -176,6 +176,10 @@ class H:
             async def cb() -> None:
                 sim.log("cb_start", cb=tid, ctx=cid)
                 await sim.pause(0, dur)
+                if spec.get("svc"):
+                    # a service task started while its owning context is already closing:
+                    # its finalizer goes on top of the stack and runs next
+                    await self.svc(spec["svc"], cid)
                 sim.log("cb_end", cb=tid, ctx=cid)
 
         else:
@@ -368,6 +372,14 @@ class H:
                 fview=h.fview(c),
             )
             h.obs_handles(fid, f"in:{tid}")
+            if t.get("own_td_raise"):
+                def own_cb() -> None:
+                    e = h.tag.make(t["own_td_raise"])
+                    sim.fault("raise_in_task_context_teardown")
+                    sim.log("task_td_raise", tf=fid, task=tid, exc=describe(e))
+                    raise e
+
+                c.add_teardown_callback(own_cb)
             try:
                 if t.get("started_delay") is not None and task_status is not None:
                     await sim.pause(0, t["started_delay"])
@@ -583,7 +595,7 @@ def oracle(sim: Sim, plan: dict) -> list[dict]:
     tr = sim.trace
     cancel_seq = next((r[0] for r in tr if r[4] == "cancel_fire"), None)
     crashed = [r for r in tr if r[4] == "svc_raise"]
-    escaped_task_exc = [r for r in tr if r[4] == "task_end" and r[5]["how"] == "raise"]
+    escaped_task_exc = [r for r in tr if (r[4] == "task_end" and r[5]["how"] == "raise") or r[4] == "task_td_raise"]
 
     exits = {r[5]["ctx"]: r for r in tr if r[4] == "ctx_exit"}
     body_ends = {r[5]["ctx"]: r for r in tr if r[4] == "body_end"}
@@ -720,7 +732,10 @@ def oracle(sim: Sim, plan: dict) -> list[dict]:
             rb = reg_begin.get(d["cb"])
             if rr[0] < reg_seq:
                 # registered before the task was up (start_service_task had not returned yet):
-                # must wait for task + its context
+                # must wait for task + its context - unless it had already begun to run when
+                # the task was started (the task was started from inside the teardown)
+                if cs[0] < s["call"][0]:
+                    continue
                 if last_task_seq is not None and cs[0] < last_task_seq:
                     v(
                         "C08.order",
@@ -777,7 +792,7 @@ def oracle(sim: Sim, plan: dict) -> list[dict]:
             tfs[d["tf"]]["started_view"] = d["owner_view"]
         elif k == "spawn_begin":
             tasks[d["task"]] = {"tf": d["tf"], "begin": r, "how": d["how"]}
-        elif k in ("spawn_end", "task_start", "task_end", "task_cancelled", "task_started", "task_p") and d.get("task") in tasks:
+        elif k in ("spawn_end", "task_start", "task_end", "task_cancelled", "task_started", "task_p", "task_td_raise") and d.get("task") in tasks:
             tasks[d["task"]].setdefault(k, []).append(r)
         elif k in ("hcancel", "hwait_begin", "hwait_end") and d.get("task") in tasks:
             tasks[d["task"]].setdefault(k, []).append(r)
@@ -922,12 +937,17 @@ def oracle(sim: Sim, plan: dict) -> list[dict]:
     handler_calls: dict[str, list] = {}
     for r in tr:
         if r[4] == "handler":
-            handler_calls.setdefault(_h(r[5]["exc"]), []).append(r)
+            handler_calls.setdefault(_h(_strip(r[5]["exc"])), []).append(r)
             if not r[5]["is_exception"]:
                 v("C09.handler", "base_exception", f"exception handler called with a non-Exception {r[5]['exc']}")
     fspec = {f["id"]: f for f in _all_tfs(plan)}
     for tid, t in tasks.items():
         te = t.get("task_end", [None])[0]
+        tdr = t.get("task_td_raise", [None])[0]
+        if tdr is not None and te is not None and te[5]["how"] == "return":
+            # the body returned, but the teardown of the task's own context raised: what
+            # escapes the task is the teardown's exception group
+            te = (tdr[0], tdr[1], tdr[2], tdr[3], "task_end", {"how": "raise", "exc": {"g": [tdr[5]["exc"]]}})
         if te is None or te[5]["how"] != "raise":
             continue
         exc = te[5]["exc"]
@@ -939,7 +959,7 @@ def oracle(sim: Sim, plan: dict) -> list[dict]:
         late_spawn = late_sfx(tid)
         handler = fs.get("handler")
         is_exc = _is_exception_desc(exc)
-        calls = handler_calls.get(_h(exc), [])
+        calls = handler_calls.get(_h(_strip(exc)), [])
         root = root_of(tfs[t["tf"]]["ctx"])
         x = exits.get(root)
         surfaced = x is not None and (exc in leaves(x[5]["exc"]) or _sub(exc, x[5]["exc"]))
@@ -1006,6 +1026,8 @@ def _all_svcs(plan: dict):
     for a in _walk_acts(plan["root"].get("body", ())):
         if a[0] == "svc":
             yield a[1]
+        elif a[0] == "td" and a[1].get("svc"):
+            yield a[1]["svc"]
 
 
 def _all_tfs(plan: dict):
@@ -1113,6 +1135,8 @@ class G:
             t["cls"] = pick(rng, {"SimError": 4, "SimLookup": 1.5, "SimFatal": 0.8})
         if rng.random() < 0.25:
             t["cleanup"] = rng.choice(DTS[1:5])
+        if "end" not in t and rng.random() < 0.12:
+            t["own_td_raise"] = pick(rng, {"SimError": 3, "SimLookup": 1})
         return t
 
     def spawn(self) -> list:
@@ -1154,7 +1178,12 @@ class G:
             elif op == "res":
                 out.append(["res", {"rid": self.nid("r"), "async": rng.random() < 0.5, "dur": rng.choice(DTS[:5])}])
             elif op == "td":
-                out.append(["td", {"id": self.nid("c"), "async": rng.random() < 0.6, "dur": rng.choice(DTS[:5])}])
+                tdspec: dict[str, Any] = {"id": self.nid("c"), "async": rng.random() < 0.6, "dur": rng.choice(DTS[:5])}
+                if self.prop == "C08" and tdspec["async"] and rng.random() < 0.15 and self.nsvc < 4 and not self.no_svc:
+                    late = self.svc(False)[1]
+                    late["body"].pop("start_delay", None)
+                    tdspec["svc"] = late
+                out.append(["td", tdspec])
             elif op == "resfac":
                 self.nrf += 1
                 out.append(["resfac", {"rid": self.nid("q")}])
